@@ -927,6 +927,32 @@ Proof.
   eexists _, _. split; [reflexivity|]. split; [reflexivity|]. split; [vm_compute; discriminate|]. split; reflexivity.
 Qed.
 
+(* the defect behind the class C09-noop-calc-keeps-hash: a Plutus spend, calc_script_data_hash (stores a hash), the same
+   outpoint added again as a key input (the witness stays registered, nothing is returned any more),
+   calc_script_data_hash again — finds nothing to hash and leaves the earlier hash; build_tx succeeds (a hash is there,
+   has_plutus_inputs still sees the registered witness) and emits a body hash of a state that no longer exists, while
+   the witness set has neither redeemers nor datums: the ledger expects NO script_data_hash *)
+Definition noop_calc_ops : list op :=
+  [OpSetSub SubCollateral (mk_sub [] [] []) 1; OpSetSub SubInputs (mk_sub [stale_lang_witness] [] []) 0; OpCalc stale_lang_cm;
+   OpSetSub SubInputs (mk_sub [] [V2] []) 0; OpCalc stale_lang_cm].
+
+Theorem noop_calc_refuted (H : bytes -> bytes) :
+  exists t p,
+    build_tx H (fst (run H builder_new noop_calc_ops)) = Ok t /\
+    tx_script_data_hash t = Some (H p) /\
+    (let fs := ws_fields (tx_witness_set t) in
+     assoc_field 5 fs = None /\ assoc_field 4 fs = None /\
+     ledger_script_integrity H (assoc_field 5 fs) (assoc_field 4 fs) (langs_used (fst (run H builder_new noop_calc_ops))) stale_lang_cm = None) /\
+    snd (run H builder_new noop_calc_ops) = [true; true] /\          (* both calc calls return Ok *)
+    known_noop_calc H noop_calc_ops = true /\
+    additive H builder_new noop_calc_ops = false /\                  (* a replacement, not an addition, in the sense of same_bytes_additive *)
+    (* without the first calc the same calls are refused by build_tx *)
+    build_tx H (fst (run H builder_new [OpSetSub SubCollateral (mk_sub [] [] []) 1; OpSetSub SubInputs (mk_sub [] [V2] []) 0; OpCalc stale_lang_cm])) = Err.
+Proof.
+  eexists _, _. split; [reflexivity|]. split; [reflexivity|]. split; [repeat split; reflexivity|].
+  repeat split; reflexivity.
+Qed.
+
 (* ================================================================== auxiliary data: histories and wire forms *)
 Section AuxHistory.
 Variable H : bytes -> bytes.
